@@ -2,8 +2,10 @@
 from __future__ import annotations
 
 import ast
+import re
 from typing import List, Optional
 
+from ..defuse import key, show
 from ..engine import own_walk
 from ..model import AnalysisInconclusive, ClassInfo
 from ..siblings import canonical_body, dump, first_difference, show_stmt
@@ -26,6 +28,7 @@ KEEP_EXC = {"InvalidOperationError", "VolumeOverflowError", "VolumeUnderflowErro
 def run(ctx) -> None:
     ctx.guard("C16.override-set", override_set)
     ctx.guard("C16.transfer-twins", transfer_twins)
+    ctx.guard("C16.history-twins", label_twins)
     ctx.guard("C16.numbering-diff", numbering_diff)
     ctx.guard("C16.generic-refuses", generic_refuses)
     # identical histories: both copies of transfer count the condensed entries and the LVH steps the same (required) way,
@@ -162,6 +165,58 @@ def _is_deprecated_wash_block(s: ast.stmt) -> bool:
         c = s.test.comparators[0]
         return isinstance(c, ast.Constant) and c.value is None and isinstance(s.test.left, ast.Name)
     return False
+
+
+def label_twins(ctx) -> None:
+    """Both copies of transfer attach the same label to the condensed history entry: the values the `label` argument of
+    condense_log can take, with the conditions under which it takes them (tests on `label` and on the LVH counter), are the same
+    set for both devices."""
+    rule = "C16.history-twins"
+    devs = concrete_devices(ctx)
+    sets = {}
+    for dev in devs:
+        f = ctx.prog.find_method(dev, "transfer")
+        if f is None:
+            continue
+        fv = ctx.fv(f, dev)
+        cond = [cs for cs in fv.calls() if cs.callee.kind == "func" and cs.callee.func.short == "Labware.condense_log"]
+        if not cond:
+            ctx.rep.inconclusive(rule, f"{dev.name}.transfer/label", "no condense_log call found")
+            return
+        cs = cond[0]
+        lab = (fv.bind_args(cs) or {}).get("label")
+        if lab is None:
+            sets[dev.name] = frozenset({"<no label>"})
+            continue
+        alts = fv.alternatives(lab, cs.node)
+        if not alts:
+            sets[dev.name] = frozenset({show(fv.res.resolve(lab, cs.node))})
+            continue
+        common = None
+        for cd, _v in alts:
+            ks = {(key(r_), p_) for r_, p_ in cd}
+            common = ks if common is None else common & ks
+
+        def norm(t):
+            # texts by their fixed parts (the counter printed into the note may be computed differently), names as they are
+            if isinstance(t, ast.JoinedStr):
+                return "".join(p_.value if isinstance(p_, ast.Constant) else ("{label}" if isinstance(p_, ast.FormattedValue) and is_name(p_.value, "label") else "{}") for p_ in t.values)
+            if isinstance(t, (ast.Name, ast.Constant)):
+                return show(t)
+            return type(t).__name__
+
+        def on_label(r_):
+            return is_name(r_, "label") or (isinstance(r_, ast.Compare) and len(r_.ops) == 1 and is_name(r_.left, "label") and isinstance(r_.comparators[0], ast.Constant))
+
+        sets[dev.name] = frozenset((frozenset((show(r_), p_) for r_, p_ in cd if on_label(r_)), norm(v_)) for cd, v_ in alts)
+    names = sorted(sets)
+    if len(names) < 2:
+        return
+    a, b = names[0], names[1]
+    only_a, only_b = sets[a] - sets[b], sets[b] - sets[a]
+    ctx.rep.check(not only_a and not only_b, rule, f"{a}.transfer~{b}.transfer/label", "both devices build the history label the same way (same tests on the label, same texts)",
+                  f"the history label is built differently: {a} has {sorted((sorted(c_), v_) for c_, v_ in only_a)[:2]}, {b} has {sorted((sorted(c_), v_) for c_, v_ in only_b)[:2]} - "
+                  "the same transfer leaves different history labels on the two devices", where=f"{a}.transfer / {b}.transfer")
 
 
 def transfer_twins(ctx) -> None:
